@@ -369,7 +369,7 @@ canceller starting 0 or 5 ms after the cancel; the same cancel positions over th
         C10Case { sc }
     });
     ctx.section = "cancel+random-faults".into();
-    let n = ctx.tier.pick(30_000u64, 300_000);
+    let n = ctx.tier.pick(30_000u64, 1_500_000);
     ctx.drive_proptest(&part, strat, n, 200);
     ctx.section.clear();
 }
